@@ -5,6 +5,7 @@
 set -u
 P="$1"; V="$2"; ID="$P-$V"
 SRC="/tmp/wt-out/$P/$V"
+[ -d "$SRC" ] || SRC="/verif/seeded/$ID"
 PATCH="${3:-$SRC/patch.diff}"
 WT="/tmp/cs/$ID"
 LOG="/tmp/cs/$ID.log"
